@@ -25,6 +25,9 @@ fam('ticket', depth=5, maxstack=4, envs=[{'SELF_ADDRESS': SELF}],
            (S(STR, s('c')), S(NAT, i(3)), S(P(OPT(NAT), NAT), p(some(i(1)), i(5)))),
            # contents of a union type: the same side with different payloads are different contents
            (S(('ticket', OR(STR, NAT)), ('t', SELF, left(s('c')), 3)), S(('ticket', OR(STR, NAT)), ('t', SELF, left(s('d')), 2))),
+           # contents that are keys: two P-256 keys with the same x and the other parity flag are different contents (as are two different Ed25519 keys)
+           (S(('ticket', ('key',)), ('t', SELF, ('o', (2, 2) + (9,) * 32), 3)), S(('ticket', ('key',)), ('t', SELF, ('o', (2, 3) + (9,) * 32), 2))),
+           (S(('ticket', ('key',)), ('t', SELF, ('o', (0, 1) + (9,) * 31), 3)), S(('ticket', ('key',)), ('t', SELF, ('o', (0, 1) + (9,) * 31), 2))),
            (S(TKT, TK(OTHER, 'c', 3)), S(TKT, TK(SELF, 'c', 2))), (S(TKT, TK(OTHER, 'c', 3)), S(TKT, TK(OTHER, 'c', 1)), S(STR, s('c')), S(NAT, i(2)))],
     alphabet=ALPH)
 
